@@ -101,9 +101,9 @@ FEATURES: dict[str, float] = {
     # identities
     "identity_chain": 0.35,
     "identity_io": 0.25,  # Identity directly between input/initializer and output
-    "identity_io_shadow": 0.10,  # ... whose output name is also used inside an *earlier* sibling subgraph
-    "identity_rename_shadow": 0.10,  # same, but the Identity input is a node output defined before that subgraph
-    "cse_rename_shadow": 0.10,  # duplicate pair: the later twin is an output named like an earlier subgraph-local value
+    "identity_io_shadow": 0.08,  # ... whose output name is also used inside an *earlier* sibling subgraph
+    "identity_rename_shadow": 0.05,  # same, but the Identity input is a node output defined before that subgraph
+    "cse_rename_shadow": 0.05,  # duplicate pair: the later twin is an output named like an earlier subgraph-local value
     "identity_outer_branch": 0.12,  # t = Identity(outer node output) returned by an If branch / Loop body
     "identity_input_branch": 0.12,  # t = Identity(outer graph input / initializer) returned by a branch
     "identity_in_branch": 0.20,  # removable Identity in the middle of a branch
@@ -1308,6 +1308,10 @@ def make_inputs(rng: random.Random, model, k: int) -> list[list[np.ndarray]]:
     +-inf sprinkled over floats and larger magnitudes for ints; further sets cycle with new values.
     Boolean inputs alternate so that both branches of an ``If`` are taken over the sets."""
     proto = model if isinstance(model, onnx.ModelProto) else ir.to_proto(model)
+    # float -> integer Cast of NaN / inf / out-of-range values is implementation defined (probe:
+    # onnxruntime then answers differently for the same model depending on buffer placement), so a
+    # model that contains such a Cast anywhere only gets finite, moderate values
+    finite_only = _casts_to_int(proto)
     sets: list[list[np.ndarray]] = []
     first_bools: list[bool] = []
     for j in range(k):
@@ -1332,6 +1336,8 @@ def make_inputs(rng: random.Random, model, k: int) -> list[list[np.ndarray]]:
                     vals = [rng.randint(-16, 16) / 4.0 for _ in range(n)]
                 elif mode == 1:
                     vals = [rng.choice([0.0, -0.0, -1.0, -2.5, 0.0, 3.0]) for _ in range(n)]
+                elif finite_only:
+                    vals = [rng.choice([1024.0, -512.0, 1.0, -2.0, 0.5, 100.25]) for _ in range(n)]
                 else:
                     vals = [rng.choice([float("nan"), float("inf"), float("-inf"), 1.0, -2.0, 0.5]) for _ in range(n)]
             else:
@@ -1344,6 +1350,19 @@ def make_inputs(rng: random.Random, model, k: int) -> list[list[np.ndarray]]:
             arrays.append(np.array(vals, dtype=dt).reshape(shape))
         sets.append(arrays)
     return sets
+
+
+_INT_TYPES = {onnx.TensorProto.INT8, onnx.TensorProto.INT16, onnx.TensorProto.INT32, onnx.TensorProto.INT64,
+              onnx.TensorProto.UINT8, onnx.TensorProto.UINT16, onnx.TensorProto.UINT32, onnx.TensorProto.UINT64}
+
+
+def _casts_to_int(model_proto) -> bool:
+    bodies = [model_proto.graph.node] + [f.node for f in model_proto.functions]
+    for nodes in bodies:
+        for n in list(nodes) + [x for g in _subgraphs(nodes) for x in g.node]:
+            if n.op_type == "Cast" and any(a.name == "to" and a.i in _INT_TYPES for a in n.attribute):
+                return True
+    return False
 
 
 def _feeds(model_proto, inputs: Sequence[np.ndarray]):
